@@ -219,6 +219,11 @@ func runBehaviour(d *Daemon, b *Behaviour, prefix string, random bool, lenient b
 							r.Void = "TLS upgrade timed out: " + detail
 							return r
 						}
+						if lenient && b.Policy.CertOK(s.C.Cert) {
+							// nsqd gives the handshake 5 s; on a busy machine that can pass
+							r.Void = "TLS upgrade with an acceptable certificate failed: " + detail
+							return r
+						}
 					}
 				}
 			case s.C.Op == "AUTH" && strings.HasPrefix(f.Data, "{"):
@@ -250,7 +255,7 @@ func runBehaviour(d *Daemon, b *Behaviour, prefix string, random bool, lenient b
 				case "eof", "reset":
 					o.Closed = true
 				case "timeout":
-					o.Closed = false // stayed open for 20 s after an error that should be fatal
+					o.Closed = false // stayed open for 90 s after an error that should be fatal
 				default:
 					r.Void = fmt.Sprintf("step %d %s: extra frame after error: %s %q", i, s.C.Op, g.Kind, g.Data)
 					return r
